@@ -282,6 +282,7 @@ def run(ctx):
     rule_subscripts(eng)
     rule_table_subscripts(eng)
     rule_subtractions(eng)
+    rule_divisions(eng)
     rule_loops(eng)
     rule_nullable(eng)
     rule_ownership(eng)
@@ -1853,6 +1854,41 @@ def pair_callers_ok(eng, f, pidx, sidx, seen):
 
 
 # ------------------------------------------------------------------ R4
+def rule_divisions(eng):
+    """C02-R4b: decode-reachable code divides (/, %) by nothing that input bytes can make zero.  Decided for the divisors that can be read:
+    a constant, a sizeof, or the answer of an in-repo function whose every return is a constant (an element-width table) — a zero among
+    them is a trap on a message that names the value."""
+    fb, res = eng.fb, eng.res
+    n = 0
+    for f in eng.fns:
+        if f.body is None:
+            continue
+        for x in f.nodes():
+            if not (x.get("k") in ("bin", "cassign") and x.get("op") in ("/", "%")):
+                continue
+            d = strip_all_casts(facts.expand(f, x["r"]))
+            c = const_value(d)
+            zero = None
+            if c is not None:
+                zero = (c == 0)
+                what = "the constant 0"
+            elif d.get("k") == "call":
+                g = fb.resolve_call(d)
+                if g is not None and g.body is not None and g.returns() and all(const_value(r0.get("e")) is not None for r0 in g.returns()):
+                    zero = any(const_value(r0.get("e")) == 0 for r0 in g.returns())
+                    what = "%s(..), which answers 0 for some of its arguments" % g.name.split("::")[-1]
+            if zero is None:
+                continue
+            n += 1
+            if zero and any(a[0] == "cmp" and canon(strip_all_casts(x["r"])) in (a[1], a[3]) and a[2] in ("!=", ">") and 0 in (const_value(a[4]), const_value(a[5]))
+                            for a in eng.mf(f).at(x)):
+                zero = False  # guarded by a live `divisor != 0`
+            res.check(not zero, "C02-R4", "%s:divisor@%s" % (f.name.replace(NS, ""), (x.get("loc") or "").split(":", 1)[-1]), x.get("loc"),
+                      "divisor is never 0", "%s divides by %s: a message whose bytes select that case stops the decoder with an arithmetic trap" %
+                      (f.name, what if zero else ""))
+    return n
+
+
 def rule_subtractions(eng):
     fb, res = eng.fb, eng.res
     # one-line predicates over their parameters are judged where they are called, with the arguments substituted
